@@ -70,6 +70,8 @@ def private_tmp():
 def file_content(kind, ident):
     if kind == "valid":
         return '#include "common.h"\nint fn_%s(int x) { return x * %d + COMMON; }\nint main(void) { return 0; }\n' % (ident, len(ident) + 2)
+    if kind == "valid3":   # two headers: the compiler reads three streams
+        return '#include "common.h"\n#include "extra.h"\nint fn3_%s(int x) { return x + COMMON + EXTRA; }\nint main(void) { return 0; }\n' % ident
     if kind == "valid2":
         return 'int g_%s = %d;\nstatic int h(int a, int b) { return a - b; }\nint use_%s(void) { return h(g_%s, 3); }\n' % (ident, len(ident), ident, ident)
     if kind == "tokerr":
@@ -93,7 +95,7 @@ def file_content(kind, ident):
     raise ValueError(kind)
 
 
-C_KINDS = ["valid", "valid", "valid", "valid2", "tokerr", "pperr", "parseerr", "generr", "segv", "missing", "dir"]
+C_KINDS = ["valid", "valid", "valid3", "valid2", "tokerr", "pperr", "parseerr", "generr", "segv", "missing", "dir"]
 S_KINDS = ["asm", "asm", "asmbad", "missing"]
 O_KINDS = ["obj", "obj", "objbad", "missing"]
 FAILING_KINDS = {"tokerr", "pperr", "parseerr", "generr", "segv", "missing", "dir", "asmbad", "objbad"}
@@ -114,13 +116,14 @@ def gen_scenario(seed, opts):
     files, pre, invs = {}, {}, []
     all_inputs = []
     files["common.h"] = "header"
+    files["extra.h"] = "header2"
     enabled_fault_kinds = [k for k in ("childexit", "childsig", "callockill", "openr", "readerr", "openw", "writeerr", "closeerr", "forkfail", "execfail", "mkstempfail")
                            if r.below(2)]  # swarm: a random subset per run
     for i in range(ninv):
         mode = r.pick(["E", "S", "c", "c", "link", "link", "E", "S", "c", "c", "link", "link", "M"])
         if tools == "real":
             mode = r.pick(["c", "link", "S"])
-        nin = r.pick([1, 1, 1, 2, 2, 3])
+        nin = r.pick([1, 1, 1, 2, 2, 3, 3, 4, 5])
         inputs = []
         for j in range(nin):
             ext = r.pick(["c", "c", "c", "c", "s", "o"])
@@ -135,7 +138,7 @@ def gen_scenario(seed, opts):
             if tools == "real" and kind == "valid" and j > 0:
                 kind = "valid2"
             sub = "d%d/" % r.below(2) if r.below(6) == 0 else ""
-            name = "%si%d_%s%d.%s" % (sub, i, "abc"[j], r.below(3), ext)
+            name = "%si%d_%s%d.%s" % (sub, i, "abcde"[j], r.below(3), ext)
             # inputs are shared on purpose: the same file (or an equally named file in another directory)
             # given to an earlier invocation, typically with another -o / another mode, as parallel builds do
             if all_inputs and r.below(3) == 0:
@@ -171,6 +174,9 @@ def gen_scenario(seed, opts):
             elif c == 2:
                 out = "outdir%d" % i       # unwritable: is a directory
                 files[out + "/keep"] = "text"
+            elif c == 3:
+                out = "osub%d/%s" % (i, out)   # fine: an existing subdirectory
+                files["osub%d/keep" % i] = "text"
         argv = {"E": ["-E"], "S": ["-S"], "c": ["-c"], "link": [], "M": ["-M"]}[mode]
         nc = sum(1 for n, _ in inputs if n.endswith(".c"))
         if mode in ("c", "S", "link") and tools == "stub" and r.below(6 if mode != "S" else 3) == 0 and (nc == 1 or not use_o):
@@ -266,12 +272,12 @@ def gen_fault(r, m, enabled):
     if kind == "openr":
         if not procs:
             return None
-        return {"proc": r.pick(procs), "ev": "fopen-r", "n": r.pick([1, 1, 2]), "act": "fail", "errno": r.pick([errno.ENOENT, errno.EACCES, errno.EMFILE])}
+        return {"proc": r.pick(procs), "ev": "fopen-r", "n": r.pick([1, 1, 2, 3]), "act": "fail", "errno": r.pick([errno.ENOENT, errno.EACCES, errno.EMFILE])}
     if kind == "readerr":
         c = [s for s in procs if s.startswith("cc1")] or procs
         if not c:
             return None
-        return {"proc": r.pick(c), "ev": "fopen-r", "n": r.pick([1, 1, 2]), "act": "rbudget", "bytes": r.pick([0, 1, 10, 40, 100]), "errno": errno.EIO}
+        return {"proc": r.pick(c), "ev": "fopen-r", "n": r.pick([1, 1, 2, 3]), "act": "rbudget", "bytes": r.pick([0, 1, 10, 40, 100]), "errno": errno.EIO}
     if kind == "openw":
         if not procs:
             return None
@@ -473,7 +479,7 @@ class Machine:
                 os.makedirs(p, exist_ok=True)
                 continue
             ident = "".join(c for c in name if c.isalnum())
-            data = "#define COMMON 7\n" if kind == "header" else "keep\n" if kind == "text" else file_content(kind, ident)
+            data = "#define COMMON 7\n" if kind == "header" else "#define EXTRA 11\n" if kind == "header2" else "keep\n" if kind == "text" else file_content(kind, ident)
             with open(p, "w") as f:
                 f.write(data)
         for name, data in sorted(self.scn["pre"].items()):
@@ -693,17 +699,12 @@ class Machine:
                     st["fired"].append((p.label, "%s %s" % (act, ekind)))
                     self.fault_fired.append((p.inv, p.label, "%s at %s" % (act, ekind)))
         if kind == "mkstemp" and reply == "GO":
-            # like the real mkstemp, a name that has been unlinked may be handed out again (to anybody): the lowest
-            # free one is chosen, so that a driver which gives a name up and later unlinks it again is caught doing so
-            tmpl = args[0]
-            k = 1
-            while k < 9999:
-                cand = tmpl.replace("XXXXXX", "%s%04d" % (self.env["wid"], k), 1) if "XXXXXX" in tmpl else None
-                if cand is None or not os.path.lexists(cand):
-                    break
-                k += 1
-            self.ntemp = max(self.ntemp, k)
-            reply = "GO name=%s%04d" % (self.env["wid"], k)
+            # names are never reissued within a scenario. (Reissuing the lowest free name was tried: it turns the
+            # universal practice "the driver unlinks at exit a temporary that a failing assembler has already removed"
+            # into certain interference, which real mkstemp makes a 1-in-62^6 event -- that demands more than the
+            # property states. What a driver must not do is covered by an explicit rule instead, see O5b in check().)
+            self.ntemp += 1
+            reply = "GO name=%s%04d" % (self.env["wid"], self.ntemp)
         if kind == "fork" and reply == "GO":
             self.pending_hello += 1
         if kind in ("exit", "_exit"):
@@ -711,6 +712,8 @@ class Machine:
             st["exits"].append((p.label, kind, int(args[0])))
         if kind == "fopen":
             st["opens"].append((p.label, ekind, args[0]))
+        if kind == "unlink" and p.label == "driver" and reply == "GO":
+            st["unlinks"].append(args[0])
         e = {"kind": ekind, "args": detail, "reply": reply.split(" name=")[0]}
         p.events.append(e)
         self.ev(p, ekind, detail + " -> " + e["reply"])
@@ -783,7 +786,7 @@ class Machine:
         try:
             for i in self.which:
                 inv = self.scn["invocations"][i]
-                self.inv_state[i] = {"nfork": 0, "count": {}, "children": [], "ended": [], "fired": [], "temps": [], "waits": [], "exits": [], "opens": []}
+                self.inv_state[i] = {"nfork": 0, "count": {}, "children": [], "ended": [], "fired": [], "temps": [], "waits": [], "exits": [], "opens": [], "unlinks": []}
                 so = open(os.path.join(self.wdir, "stdout.%d" % i), "wb") if inv["stdout"] == "file" else open("/dev/full", "wb")
                 se = open(os.path.join(self.wdir, "stderr.%d" % i), "wb")
                 outs[i] = (so, se)
@@ -1026,6 +1029,10 @@ def failed_steps(scn, i, st, m):
     return failed
 
 
+def mach_canon(path):
+    return re.sub(r"chibicc-\d\d(\d{4})", r"chibicc-T\1", path)
+
+
 def check(env, wdir, scn, res, solo, refs, which):
     """returns list of (class, invocation, text)"""
     v = []
@@ -1108,6 +1115,14 @@ def check(env, wdir, scn, res, solo, refs, which):
             t = m["out"] or "a.out"
             if not t.startswith("/") and res["before"].get(t) != res["after"].get(t):
                 v.append(("O2-output-of-unstarted-unit-touched", i, "the linker was never started, yet %s changed" % t))
+        # O5b a driver gives each temporary name up once: after its own unlink the name may be handed to somebody
+        # else by mkstemp, so unlinking it again can delete another invocation's file
+        seen_u = set()
+        for t in st["unlinks"]:
+            if t in seen_u and t in st["temps"]:
+                v.append(("O5-unlinks-a-temporary-it-gave-up", i, "the driver unlinks %s a second time; between the two calls the name is free for any other process" % mach_canon(t)))
+                break
+            seen_u.add(t)
         # O3 no temporaries (per invocation: every mkstemp name handed to it is gone)
         for t in st["temps"]:
             if os.path.exists(t):
@@ -1249,7 +1264,7 @@ def minimise(env, wdir, scn, res, cls, cache, budget=80):
                         i += chunk
                 chunk //= 2
     # drop files nobody mentions
-    mentioned = set(["common.h"])
+    mentioned = set(["common.h", "extra.h"])
     for inv in best["invocations"]:
         for a in inv["argv"]:
             mentioned.add(a)
@@ -1301,7 +1316,7 @@ def enumeration_scenarios():
                 shapes.append((argv, inputs))
     out = []
     for argv, inputs in shapes:
-        files = {"common.h": "header"}
+        files = {"common.h": "header", "extra.h": "header2"}
         for p in inputs:
             files[p] = {"c": "valid", "s": "asm", "o": "obj"}[p[-1]]
         inv0 = {"argv": argv, "stdout": "file", "faults": []}
